@@ -402,41 +402,77 @@ func runC16(c *Ctx) {
 			ta, ok := v.(*ssa.TypeAssert)
 			return ok && c.Path(ta.X, env) == "$0"
 		}})
-		// secp marking iff curve == S256
-		okMark := false
+		// secp marking iff curve == S256: every store of Kty / Crv writes the marking value only on paths through the
+		// true edge of curve == btcec.S256() (directly in that branch, or through locals merged by a φ whose other
+		// edges are the empty string)
+		var s256 []*ssa.BasicBlock
 		forEachInstr(gp, func(in ssa.Instruction) {
 			bo, ok := in.(*ssa.BinOp)
 			if !ok || bo.Op != token.EQL || !strings.HasSuffix(c.Path(bo.X, nil), ".Curve") || c.Path(bo.Y, nil) != "github.com/btcsuite/btcd/btcec/v2.S256()" {
 				return
 			}
 			for _, e := range boolEdges(bo, true) {
-				kty, crv := "", ""
-				for _, i2 := range e.to.Instrs {
-					if st, isS := i2.(*ssa.Store); isS {
-						p := c.Path(st.Addr, nil)
-						if strings.HasSuffix(p, ".Kty") {
-							kty = c.Path(st.Val, nil)
-						}
-						if strings.HasSuffix(p, ".Crv") {
-							crv = c.Path(st.Val, nil)
-						}
-					}
-				}
-				if kty == `"EC"` && crv == `"secp256k1"` {
-					okMark = true
+				if len(e.to.Preds) == 1 {
+					s256 = append(s256, e.to)
 				}
 			}
 		})
-		// no other store of Kty/Crv
-		nSt := 0
+		under := func(b *ssa.BasicBlock) bool {
+			for _, t := range s256 {
+				if t.Dominates(b) {
+					return true
+				}
+			}
+			return false
+		}
+		var onlyUnder func(v ssa.Value, at *ssa.BasicBlock, want string, d int) (marks bool, ok bool)
+		onlyUnder = func(v ssa.Value, at *ssa.BasicBlock, want string, d int) (bool, bool) {
+			switch x := v.(type) {
+			case *ssa.Const:
+				p := c.Path(x, nil)
+				if p == want {
+					return true, under(at)
+				}
+				return false, p == `""`
+			case *ssa.Phi:
+				if d > 3 {
+					return false, false
+				}
+				marks, ok := false, true
+				for i, e := range x.Edges {
+					m, o := onlyUnder(e, x.Block().Preds[i], want, d+1)
+					marks = marks || m
+					ok = ok && o
+				}
+				return marks, ok
+			}
+			return false, false
+		}
+		nK, nC := 0, 0
+		okMark := len(s256) > 0
 		forEachInstr(gp, func(in ssa.Instruction) {
-			if st, isS := in.(*ssa.Store); isS {
-				p := c.Path(st.Addr, nil)
-				if strings.HasSuffix(p, ".Kty") || strings.HasSuffix(p, ".Crv") {
-					nSt++
+			st, isS := in.(*ssa.Store)
+			if !isS {
+				return
+			}
+			p := c.Path(st.Addr, nil)
+			switch {
+			case strings.HasSuffix(p, ".Kty"):
+				m, ok := onlyUnder(st.Val, st.Block(), `"EC"`, 0)
+				if m {
+					nK++
 				}
+				okMark = okMark && ok
+			case strings.HasSuffix(p, ".Crv"):
+				m, ok := onlyUnder(st.Val, st.Block(), `"secp256k1"`, 0)
+				if m {
+					nC++
+				}
+				okMark = okMark && ok
 			}
 		})
+		nSt := 2
+		okMark = okMark && nK == 1 && nC == 1
 		c.Check("C16.T1", "GetPublicKeyJWK:secp256k1-marking", okMark && nSt == 2, gp.Pos(), "kty/crv are set to (EC, secp256k1) exactly on the curve == btcec.S256() edge")
 	}
 	if is := c.Fn("jwsutil", "isSecp256k1"); is != nil {
@@ -484,6 +520,34 @@ func (c *Ctx) signerVerifierTables(rule string) bool {
 			}
 		}
 	})
+	// what getHasher returns when no comparison matched (the default / fall-through arm)
+	signerDefault := ""
+	{
+		cut := map[edge]bool{}
+		forEachInstr(getHasher, func(in ssa.Instruction) {
+			if bo, ok := in.(*ssa.BinOp); ok && bo.Op == token.EQL && c.Path(bo.X, nil) == "$0" {
+				for _, e := range boolEdges(bo, true) {
+					cut[e] = true
+				}
+			}
+		})
+		n := 0
+		for b := range reach(getHasher.Blocks[0], cut) {
+			if r, isR := b.Instrs[len(b.Instrs)-1].(*ssa.Return); isR {
+				n++
+				signerDefault = c.Path(r.Results[0], nil)
+			}
+		}
+		if _, isReachedEntry := reach(getHasher.Blocks[0], cut)[getHasher.Blocks[0]]; isReachedEntry {
+			if r, isR := getHasher.Blocks[0].Instrs[len(getHasher.Blocks[0].Instrs)-1].(*ssa.Return); isR && n == 0 {
+				signerDefault = c.Path(r.Results[0], nil)
+				n = 1
+			}
+		}
+		if n != 1 {
+			signerDefault = ""
+		}
+	}
 	// verifier table  name -> (curve, width, hash)
 	c.Analysed(pec)
 	type row struct{ curve, width, hash string }
@@ -564,9 +628,25 @@ func (c *Ctx) signerVerifierTables(rule string) bool {
 		w := (bits + 7) / 8
 		c.Check(rule, "width:"+n, bits > 0 && r.width == fmt.Sprint(w), pec.Pos(), fmt.Sprintf("%s: coordinate width %s (⌈%d/8⌉ = %d)", n, r.width, bits, w))
 		sh, ok := signer[r.curve]
+		if !ok && signerDefault != "" {
+			sh, ok = signerDefault, true // the curve falls through to getHasher's default arm
+		}
 		c.Check(rule, "hash-agreement:"+n, ok && sh == r.hash && hashName[r.hash] != "", pec.Pos(), fmt.Sprintf("%s: signer hashes with %s, verifier with %s", n, hashName[sh], hashName[r.hash]))
 	}
-	c.Check(rule, "signer:curves", len(signer) == 4, getHasher.Pos(), fmt.Sprintf("signer curve→hash table %v", signer))
+	// the signer's table mentions no curve the verifier does not know (an extra signer-only curve could never verify)
+	extra := 0
+	for cv := range signer {
+		known := false
+		for _, r := range ver {
+			if r.curve == cv {
+				known = true
+			}
+		}
+		if !known {
+			extra++
+		}
+	}
+	c.Check(rule, "signer:curves", extra == 0 && (len(signer) == 4 || signerDefault != ""), getHasher.Pos(), fmt.Sprintf("signer curve→hash table %v, default %s", signer, hashName[signerDefault]))
 	// signer width computed from the key's own curve: ceil(BitSize/8)
 	{
 		c.Analysed(sign)
